@@ -253,4 +253,51 @@ PROPS = {
         'assumptions': ['sequential histories', 'the cron service accepts every schedule string (the recording Cronner does)'],
         'partial': 'firing of registered jobs is C16; D17 not exercised',
     },
+'C14': {
+        'props_file': 'props/C14.v',
+        'domains': [{'name': 'js', 'quick': 120, 'thorough': 3000, 'thorough_shards': 10}],
+        'spec_ops': ['timeout-stops-script', 'in-time-value-unaffected', 'error-is-error', 'unwatched-loop'],
+        'corr': 'corr.js (CorrJs.check_js: the observed outcome class of one script run must be among Watchdog.outcomes - the terminal configurations of the '
+                'protocol model over all schedules - for the script family, the timeout selection of the case and the variant of RunJavascript the tree has; '
+                'values by the template semantics Query.eval_cexpr; a time-out never before the limit)',
+        'rule': 'js: one script per case from {value templates of the query domain, echo of the visible variables, throw "boom", "(" , while(true){i=i+1}, for(;;){}, '
+                'a busy loop calibrated in the child to 2.5x the limit followed by a value template} x timeout setting {location control 150-300 ms, system default, '
+                'switched off, negative control, negative default, control over a negative default, control ignored without a location} x position {core.RunJavascript with / '
+                'without a location, Location.RunJavascript, code term of Location.Query, condition of a rule, action of a rule (ProcessEvent)}; every case in a child process '
+                '(a hang is an observation: the child gives up after limit + 2 s, the parent kills it 4 s later), 12 children at a time; a probe case tells which variant of '
+                'RunJavascript the tree has; non-trivial = every case but unwatched endless loops; distinct by hash of inputs',
+        'refuted': ['timeout_deadlocks_counterexample, as_is_every_timeout_deadlocks, fast_script_race_deadlock_counterexample, halt_returns_nil_nil_counterexample (D19)',
+                    'never_polls_counterexample (D27)'],
+        'level_text': 'Coq theorems over a transition system of RunJavascript\'s watchdog protocol (runner with its deferred calls in LIFO order and recover, watchdog goroutine, '
+                      'Interrupt channel of capacity 1, watchdogCleanup of capacity 0 (code) or 1 (repair), timer, script as an oracle over 7 families), over ALL interleavings: '
+                      'for the repaired protocol caller_always_returns (a measure decreases with every step; no deferred call blocks; every maximal run ends with the caller back in control and no goroutine left), '
+                      'timeout_is_error, fast_script_unaffected, no_panic / no_send_on_closed_channel / no_double_close (every variant), timeout_selection_ok, disabled_timeout_runs_unwatched; '
+                      'for the code as it is the refutations of D19 (every interrupted run deadlocks; buffer alone returns (nil, nil)) and D27. '
+                      'Reachability is decided by a verified exploration: the list of reachable configurations is proved closed under the successor function, properties are forallb over it. '
+                      'Tie to the code: generated scripts x settings x positions run in child processes with a wall-clock oracle; observed outcome classes must be outcomes of the model.',
+        'level_note': 'The model abstracts the script to its family (what it does relative to the deadline, whether it polls) and leaves out stuttering polls; time is assumed to pass (an enabled timer fires, a runnable goroutine runs). '
+                      'otto (dependency) is trusted to poll Interrupt at every statement/expression and nowhere else; the bound "within limit + 1.5 s" is a wall-clock observation, not a theorem. '
+                      'Open: D19 (the unrepaired tree hangs its caller on every time-out; repair proposed in hooks/d19.diff), D27 (for(;;){} is never interrupted: otto polls only when a statement or expression is evaluated).',
+        'technique': 'Coq: explicit-state model checking inside the kernel (verified closure of the reachable set + well-founded progress measure) of a two-thread channel protocol; child-process differential testing with a hang detector',
+        'assumptions': ['otto polls the Interrupt channel once per evaluated statement/expression and only there',
+                        'weak fairness: an enabled timer eventually fires and a runnable goroutine eventually runs',
+                        'a script of family Slow is still running, and polls, when the interrupt is delivered (the harness calibrates 2.5x the limit and treats runs that finish within limit + 300 ms as ambiguous)'],
+    },
+    'C17': {
+        'props_file': 'props/C17.v',
+        'domains': [{'name': 'loc-cache', 'quick': 150, 'thorough': 6000, 'thorough_shards': 10}],
+        'spec_ops': ['addfact', 'addrule', 'remfact', 'remrule', 'getfact', 'getrule', 'enablerule', 'clear', 'setparents', 'getparents', 'size', 'search', 'event', 'existence-check'],
+        'corr': 'corr.loc (CorrLoc.check_loc) on the cache profile: every request is sent to three sys.Systems (TTL forever / never / 1 ms; same CheckExistence and state kind) and compared; the "forever" observations are replayed through the location model (hooks installed); ghost-location probes for the existence check; a stress phase counts OpenLocation calls for N concurrent first requests',
+        'rule': 'loc-cache: histories of 20-45 requests over 1-2 locations through the sys.System API (facts, rules, events via ProcessEvent, parents, clear, size), each executed on three Systems that differ only in LocationTTL, '
+                'with a 2 ms pause so that 1 ms entries expire between requests; in half of the cases existence checking is on (locations created first; a ghost location is probed every 7 requests and must stay absent from cache and storage); '
+                'a quarter of the cases add 8-16 concurrent first requests on a fresh System; non-trivial = at least 3 distinct (op, outcome) kinds; distinct by hash of inputs',
+        'refuted': ['single_load_refuted_counterexample (D41, code before the repair)', 'never_pending_cachettl_counterexample'],
+        'level_text': 'Coq theorems over the executable model of CachedLocations (expire/Open/Release, CachedLocation.Get, existence check, !cacheTTL): cache_transparent (every configuration, every history: same final stored state and success pattern as the cache-free system, never a stale instance), '
+                      'results_independent_of_ttl, existence_check_no_create, forever_loads_once, never_reloads_every_request, and for concurrent first requests over all schedules single_load_with_reuse (the protocol as repaired in /repo; the refutation for the earlier code is kept: D41). '
+                      'Together with C06 (reload_same_facts: an instance loaded from storage is the live location) this gives transparency of results. Tie to the code: three real Systems with different TTLs on the same history, compared with each other and with the location model.',
+        'level_note': 'Known findings: D42 (ClearLocation erases the created marker: later results depend on the TTL), D33 (hook-rejected add on the linear state leaves a record: visible after reload, hence TTL-dependent), D41 (single load could be violated under a specific interleaving; repaired in /repo, fix: commit). '
+                      'GetLastUpdatedMem, location stats and controls are in-memory by design and are outside the compared surface.',
+        'technique': 'Coq refinement of the cache layer to a cache-free specification over all histories + exhaustive-schedule invariant for concurrent opens + three-way differential of real Systems',
+        'assumptions': ['sequential request histories for the transparency clause', 'a finite TTL requires a persistent cron service (NewSystem enforces it; the harness supplies a recording one)'],
+    },
 }
